@@ -109,7 +109,9 @@ def suffixes(ids, k):
         yield [op_freeze(0), op_ext(0, 'N', m=[('y', ids.new())]), op_ext(1, None, m=[('y', ids.new())]),
                op_ext(2, None, m=[('x', ids.new())]), op_filt(3, excl=['A'], w='ms')]
 
-def gen_placements(maxk, with_auto):
+def gen_placements(maxk, with_auto, sparse=0):
+    """sparse=1,2: categories that define only some of the three kinds (so that several categories hold EQUAL — empty —
+    dictionaries of a kind; the placement of a category is by rank in categories(), never by comparing dictionaries)"""
     cats = CATS + ([None] if with_auto else [])
     n = 0
     for k in range(1, maxk + 1):
@@ -120,6 +122,10 @@ def gen_placements(maxk, with_auto):
             for j, pl in enumerate(pls):
                 cat = cats[j % len(cats)]
                 m, e, s = std_defs(ids, j + n)
+                if sparse:
+                    keep = [('m',), ('m', 'e'), ('m', 'e', 's'), ('s',), ('m', 's'), ('e',)][(j * sparse + (0 if j < k - 1 else 2)) % 6]
+                    if j == k - 1: keep = ('m', 'e', 's')      # the category placed last defines every kind
+                    m, e, s = (m if 'm' in keep else []), (e if 'e' in keep else []), (s if 's' in keep else [])
                 ops.append(op_add(0, cat, m, e, s, **place_kwargs(pl)))
             for suf in suffixes(ids, n % 4):
                 yield mk(ops + suf)
@@ -144,9 +150,33 @@ def gen_errors():
     # same spec object in two categories
     yield mk([op_add(0, 'A', m=[('x', 1)]), op_add(0, 'B', m=[('x', 1), ('y', 2)], p=True), op_filt(0, keep=['A'])])
 
+def gen_sparse(rng, reps):
+    """three categories A, B, C of which any subset defines each kind (so that several categories hold EQUAL — empty —
+    dictionaries of a kind), then a fourth one defining every kind, placed in each of the ten ways; the rank of a category
+    is its rank in categories(), never a matter of comparing dictionaries"""
+    for _ in range(reps):
+        for mm in range(8):
+            for me in range(8):
+                for ms in range(8):
+                    for pl in PLACEMENTS:
+                        ids = Ids()
+                        ops = []
+                        order = list(CATS)
+                        if reps > 1: rng.shuffle(order)
+                        for j, cat in enumerate(order):
+                            m, e, s = std_defs(ids, j + mm)
+                            ops.append(op_add(0, cat, m if mm >> j & 1 else [], e if me >> j & 1 else [], s if ms >> j & 1 else []))
+                        m, e, s = std_defs(ids, 3)
+                        ops.append(op_add(0, 'D', m, e, s, **place_kwargs(pl)))
+                        if (mm + me + ms) % 5 == 0:
+                            ops += [op_freeze(0), op_ext(0, None, m=[('y', ids.new())])]
+                        yield mk(ops)
+
 def rand_defs(rng, ids, kind):
     out = []
     names = SPCH if kind == 's' else NAMES
+    if rng.random() < 0.3:
+        return out          # a category that defines nothing of this kind
     for nm in names:
         if rng.random() < 0.45:
             out.append((nm, ids.new()))
@@ -205,12 +235,16 @@ def cases(tier, rng):
             yield c
         for c in gen_placements(3, True):
             yield c
+        for c in gen_sparse(rng, 1):
+            yield c
         for c in gen_random(rng, 8000, 10):
             yield c
     else:
         for c in gen_placements(4, False):
             yield c
         for c in gen_placements(4, True):
+            yield c
+        for c in gen_sparse(rng, 3):
             yield c
         for c in gen_random(rng, 150000, 16):
             yield c
